@@ -5,7 +5,7 @@ CONSTANTS
   Cands = {"a", "b"}
   ProposeLock = 1000
   MaxProps = 3
-  StopDeltas = {0, 2, 4, 6}
+  StopDeltas = {0, 1, 2, 4, 6}
   TrigDeltas = {0, 1, 3}
   Pcts = {51, 100}
   Toks = {"ok", "bad"}
